@@ -21,6 +21,10 @@ SHARD_TIMEOUT = {'quick': 400, 'thorough': 2400}
 NSHARD = 16
 
 
+TAILS = [bytes.fromhex(x) for x in ('0000', '0100', '0200', '0001', '010100', '4000', 'ff00', '00000000', '02000200', '0002', '000000', '0101', '010001000100',
+                                    '0200020002000200', '00ff', '0300000000', '410400', '0104', '000100')]
+
+
 def budget(n):
     return 2000 + 400 * n
 
@@ -172,6 +176,12 @@ def run_shard(sh):
                     for b in range(0, 256, 1):
                         for c in (0, 1, 3, 4, 16, 32, 128, 255):
                             R.call(name, f, bytes([a, b, c]))
+            # small structured inputs: a 2-octet head (code / sub-code, type / length, AFI ...) followed by a short tail of
+            # type-length-value shape with zero and small lengths (loops that advance by a length read from the input)
+            for a in range(0, 9):
+                for b in range(0, 12):
+                    for tail in TAILS:
+                        R.call(name, f, bytes([a, b]) + tail)
             # valid encodings in the corpus for this decoder = items it decodes without raising
             pool = []
             for b in sorted(items, key=len):
